@@ -544,7 +544,3 @@ package bgp
 //@ func NewCapMultiProtocol
 //@   modifies nothing
 //@   ensures result != nil && fresh(result) && result.CapValue == rf
-// logging helper: assumed free of side effects (not verified; listed in the evidence)
-//@ func (FSMState).String
-//@   pure
-//@   spec-only
